@@ -123,7 +123,7 @@ fn variants(b: &Board, p: &Pos, sel: u16, kind: u8) -> Vec<(Board, &'static str)
 
 pub fn run(ctx: &Ctx) -> Report {
     let mut rep = Report::new(ctx);
-    rep.rule = "Pairs: a board A from the generators (heavy weight on en-passant motifs: capturing pawn present/absent/pinned on file, rank or diagonal, capture exposing the king along the rank, mover in check with the capture being or not being a remedy, a bishop/queen/knight/king standing where a capturing pawn would stand) paired with: A with other clocks; A with the EP file cleared; A with the EP file moved to every other file the library accepts; A with one piece removed/retyped/added, a right toggled or the side flipped; A with a right moved to another own rook on the same wing (Chess960); an unrelated board; and triples (A, clocks, EP-cleared) for transitivity. Oracle: same placement, side and rights by the reference, and the reference's 'a legal EP capture exists, on file f' agrees; also reflexive and symmetric on every pair. In the thorough tier also pairs of different boards with EQUAL hashes, constructed by a generalised-birthday search over the extracted Zobrist keys. Non-trivial = at least one board of the pair has an EP file set, or a constructed collision pair; distinct by hash of both texts.".into();
+    rep.rule = "Pairs: a board A from the generators (heavy weight on en-passant motifs: capturing pawn present/absent/pinned on file, rank or diagonal, capture exposing the king along the rank, mover in check with the capture being or not being a remedy, a bishop/queen/knight/king standing where a capturing pawn would stand) paired with: A with other clocks; A with the EP file cleared; A with the EP file moved to every other file the library accepts; A with one piece removed/retyped/added, a right toggled or the side flipped; A with a right moved to another own rook on the same wing (Chess960); an unrelated board; and triples (A, clocks, EP-cleared) for transitivity. Oracle: same placement, side and rights by the reference, and the reference's 'a legal EP capture exists, on file f' agrees; also reflexive and symmetric on every pair. In the thorough tier also pairs of different boards with EQUAL hashes, constructed by a generalised-birthday search over the extracted Zobrist keys (pairs differing only in piece kinds, and pairs differing only in piece colours). Non-trivial = at least one board of the pair has an EP file set, or a constructed collision pair; distinct by hash of both texts.".into();
     rep.assumptions = vec!["reference legal_ep_file(): make the capture, test the own king".into()];
     rep.required_classes = vec![
         "ep-set:capture-legal", "ep-set:no-capturer", "ep-set:capturer-illegal", "ep-set:non-pawn-on-capture-square", "pair:ep-cleared", "pair:ep-moved", "pair:other-clocks",
@@ -210,7 +210,11 @@ pub fn run(ctx: &Ctx) -> Report {
     if ctx.tier == Tier::Thorough {
         let mut part = PartResult::empty();
         if let Ok(m) = super::c10::model() {
-            for (a, b) in crate::collide::kind_collision_pairs(m, 16) {
+            let kind_pairs = crate::collide::kind_collision_pairs(m, 16);
+            let colour_pairs = crate::collide::colour_collision_pairs(m, 16);
+            part.stats.count("constructed:kind-collision-pairs", kind_pairs.len() as u64);
+            part.stats.count("constructed:colour-swap-collision-pairs", colour_pairs.len() as u64);
+            for (a, b) in kind_pairs.into_iter().chain(colour_pairs) {
                 let (Some(ba), Some(bb)) = (build(&a), build(&b)) else { continue };
                 part.stats.eval(1);
                 part.stats.class_if(ba.hash() == bb.hash(), "constructed-hash-collision-pair");
